@@ -85,6 +85,11 @@ POOL = [
     "characters(digits => true).len()", 'int("12") + float("1.5")',
     '$.items.max() - $.items.min()', 'isString($.s) and isList($.items)',
     '$src.take(3).select($ + 1)', '$src.where($ mod 2 = 0).take(2).sum()',
+    # context-producing calls whose arguments are literals only, in front of
+    # a part that reads the document
+    'let(limit => 2) -> $.items.where($ > $limit)',
+    'with(100, 7) -> $.items.select($ * $2)',
+    'def(twice, 2) -> $.items.select($ * twice())',
     # deep expressions: alone the first needs about two thirds of the
     # interpreter's stack, the others about 40% (the harness's scheduling
     # hooks add a frame of their own to every call level, so a statement at
@@ -215,8 +220,11 @@ def baseline(si, di):
         # it while it runs a test)
         common.reset_process_state()
         box = []
+        # (a statement parsed for this one evaluation: what the shared
+        # statement objects remember from other documents is not in it)
+        fresh = common.engine(cache=False)(POOL[key[0]])
         t = threading.Thread(target=lambda: box.append(evaluate(
-            statements()[key[0]], key[1], make_parent())))
+            fresh, key[1], make_parent())))
         t.start()
         t.join()
         _BASE[key] = box[0]
